@@ -97,7 +97,7 @@ func TestConverterBinary(t *testing.T) {
 		// keep the sample valid and non-empty: the command is exercised on what it is documented to convert
 		var rules []routex.Rule
 		for _, r := range c.rules {
-			if r.Kind == routex.KindRegexp && slicesContains(badRegexpPool, r.Text) {
+			if r.Kind == routex.KindRegexp && isBadRegexp(r.Text) {
 				continue
 			}
 			rules = append(rules, r)
